@@ -527,6 +527,11 @@ SvdKeep(isl, opt) ==
 RECURSIVE SortDesc(_)
 SortDesc(S) == IF S = {} THEN <<>> ELSE LET m == CHOOSE x \in S : \A y \in S : y <= x IN <<m>> \o SortDesc(S \ {m})
 IslSvSq(isl, keep) == LET sq == SortDesc({isl.sig[k] : k \in keep}) IN [t \in 1..Len(sq) |-> sq[t] * sq[t] * IslScaleSq(isl)]
+\* the same with multiplicities (tied singular values appear as often as they are planted)
+RECURSIVE SortIdxDesc(_, _)
+SortIdxDesc(sig, KS) == IF KS = {} THEN <<>>
+                        ELSE LET m == CHOOSE k \in KS : \A j \in KS : sig[j] <= sig[k] IN <<sig[m]>> \o SortIdxDesc(sig, KS \ {m})
+IslSvSqM(isl, keep) == LET sq == SortIdxDesc(isl.sig, keep) IN [t \in 1..Len(sq) |-> sq[t] * sq[t] * IslScaleSq(isl)]
 
 SvdO(a, index, ow, opt) ==
     /\ "Svd" \in Ops /\ Closed(pool[a]) /\ IsVec(pool[a])
@@ -652,7 +657,7 @@ MatSvd(a, index, r, p, q, rel, absT) ==
            /\ (r # 0 => ~CapSplitsTie(isl.sig, r))
            /\ (r # 0 => Cardinality(keep) = Min(r, Cardinality(thr)))
            /\ Step([op |-> "MatSvd", a |-> a, index |-> index, maxrank |-> r, thrp |-> p, thrq |-> q, rel |-> rel, absT |-> absT,
-                    val |-> o.d, kept |-> [IslDense(isl, keep) EXCEPT !.cd = o.d.cd], svsq |-> IslSvSq(isl, keep)], <<>>, <<>>)
+                    val |-> o.d, kept |-> [IslDense(isl, keep) EXCEPT !.cd = o.d.cd], svsq |-> IslSvSqM(isl, keep)], <<>>, <<>>)
 
 \* ------------------------------------------------------- documented error paths
 \* A call with inadmissible arguments raises the documented exception and changes nothing: no new object,
